@@ -108,7 +108,9 @@ def hop (ds : Dataset) (perms : List (List Nat)) : Toks → Option (Dataset × L
   | "itargets" :: ts => do
     let (_b, ts) ← pNat ts
     let (l, ts) ← pList pInt ts
-    let r := match ds.targets (α := Float) l with
+    -- targets_iterator_t: one `targets` call per batch; an empty sample list means no call at all (even without a target)
+    let (t0, t1, t2) := ds.targetDims
+    let r := if l.isEmpty then s!"T 0 {t0} {t1} {t2}" else match ds.targets (α := Float) l with
       | some ((d0, d1, d2), rows) => showMatrix "T" l.length s!"{d0} {d1} {d2}" (rows.map (·.map nan2zero))
       | none => "X"
     pure (ds, perms, ts, r)
@@ -197,7 +199,7 @@ def findPerms : Toks → Option (List (List Nat))
     guard ts.isEmpty
     pure ps
   | _ :: ts => findPerms ts
-  | [] => none
+  | [] => some []   -- the harness threw before it could append them
 
 def pGen : P (GKind × List Nat × List Nat) := fun ts => do
   let (k, ts) ← pNat ts
@@ -239,7 +241,7 @@ def handle : Toks → Option String
     let (nh, ts) ← pNat ts
     let (ts, perms', rs) ← hops nh ds perms ts []
     guard (perms'.isEmpty)
-    guard (ts.head? = some "perms")
+    guard (ts.head? = some "perms" ∨ ts.isEmpty)
     pure (String.join (header :: rs.map (fun r => " ; " ++ r)))
   | _ => none
 
